@@ -118,11 +118,44 @@ let refine_case hd bits vals coefs hex sizes =
        | OutOfFuel -> print_endline "R fuel")
   | _ -> print_endline "?"
 
+(* `q kind Ss Se Al eobrun nmcu bpm | bits16 | vals | initial DC values | hex | sizes` : DC first / AC first / DC refine units *)
+let hex64 z =
+  let rec go z acc n = if n = 0 then acc else
+    let (q, r) = (Z.div z (z_of_int 16), Z.modulo z (z_of_int 16)) in go q (Printf.sprintf "%x" (int_of_z r) ^ acc) (n - 1) in
+  let sx = go z "" 16 in
+  let i = ref 0 in while !i < 15 && sx.[!i] = '0' do incr i done; String.sub sx !i (16 - !i)
+let prog_case hd bits vals init hex sizes =
+  match List.map int_of_string (List.tl (words hd)) with
+  | [ kind; ss; se; al; eob; nm; bpm ] ->
+      let tbl = derive_dtbl (zl (0 :: ints bits)) (zl (ints vals)) in
+      let bytes = hexbytes (String.trim hex) in
+      let cs = List.map zl (chunks (ints sizes) bytes) in
+      let total = List.length bytes in
+      let pr done_ eob bl gb um buf last vals =
+        Printf.printf "Q done=%d eob=%d bl=%d gb=%s um=%d consumed=%d last=%s |%s\n" done_ eob (int_of_z bl) (hex64 gb) (int_of_z um)
+          (total - List.length buf) (String.concat "," (List.map string_of_int last))
+          (String.concat "" (List.map (fun v -> " " ^ string_of_int (int_of_z v)) vals)) in
+      if kind = 3 then begin
+        let iv = ints init in
+        let mcus = List.init nm (fun i -> zl (take bpm (drop (bpm * i) iv))) in
+        let show s buf = pr (List.length s.dq_done) eob s.dq_bl s.dq_gb s.dq_um buf (List.init bpm (fun _ -> 0)) (List.concat (s.dq_done @ s.dq_todo)) in
+        match run_dc_refine (z_of_int al) cs (dq_init mcus) with
+        | Halted (s, buf) -> show s buf | Susp (s, buf, _) -> show s buf | _ -> print_endline "Q fail"
+      end else begin
+        let show s buf = pr (List.length s.pq_out) (int_of_z s.pq_eob) s.pq_bl s.pq_gb s.pq_um buf (il s.pq_last) (List.concat s.pq_out) in
+        let r = if kind = 1 then run_dc_first (List.init bpm (fun i -> (nat_of_int i, tbl))) (z_of_int al) cs (pq_init (nat_of_int bpm) (z_of_int eob) (nat_of_int nm))
+                else run_ac_first tbl (z_of_int ss) (z_of_int se) (z_of_int al) cs (pq_init (nat_of_int bpm) (z_of_int eob) (nat_of_int nm)) in
+        match r with
+        | Halted (s, buf) -> show s buf | Susp (s, buf, _) -> show s buf | _ -> print_endline "Q fail"
+      end
+  | _ -> print_endline "?"
+
 let () = iter_lines (fun line ->
   match fields line with
   | [ "s"; hex; sizes ] -> scan_case false hex (ints sizes)
   | [ "s2"; hex; sizes ] -> scan_case true hex (ints sizes)      (* with the decode_mcu_fast switch *)
   | [ hd; bits; vals; coefs; hex; sizes ] when String.length hd > 1 && hd.[0] = 'r' -> refine_case hd bits vals coefs hex sizes
+  | [ hd; bits; vals; init; hex; sizes ] when String.length hd > 1 && hd.[0] = 'q' -> prog_case hd bits vals init hex sizes
   | [ hd; hex; sizes ] ->
       (match words hd with
        | [ "m"; sv ] ->
